@@ -1723,8 +1723,8 @@ theorem recordFailure_live (k : EClass) :
   keep_live_of cfg Live (fun _ h => h) (fun v => recordFailure_l cfg v k)
 
 /-- the `except` ladder of `_execute_without_retry` -/
-theorem noRetryLadder_spec (e : Exn) :
-    ⦃fun w => ⌜FinS cfg e w⌝⦄ noRetryLadder cfg e ⦃outPost cfg⦄ := by
+theorem noRetryLadder_spec (b : Bool) (e : Exn) :
+    ⦃fun w => ⌜FinS cfg e w⌝⦄ noRetryLadder cfg b e ⦃outPost cfg⦄ := by
   by_cases ha : e.isAbort = true
   · have h1 := recordCancel_quiet cfg
     have h2 := noRetryEndHook_quiet cfg
